@@ -730,6 +730,9 @@ def _result_matches(F, R, dec):
                     pr = _pat_root(pat)
                     if pr == "Ok":
                         continue
+                    if pat.get("k") == "Binding" and not pat.get("sub") and strip(unblock(body)).get("k") == "Var" \
+                            and strip(unblock(body))["var"]["id"] == pat["var"]["id"]:
+                        continue      # `other => other`: the whole Result, error included, is the arm's value
                     okk = _propagates(body)
                     R.check(okk, "H-noswallow", "%s/%s-on-result/%s" % (root, kind, pp_pat(pat)[:40] if pat.get("k") != "Wild" else "_"),
                             "%s: a %s on a Result<_, %s> has an arm `%s` that does not propagate the error: an I/O error or end of input becomes a value" % (
